@@ -172,10 +172,10 @@ def judge(ctx: core.Ctx, case: dict[str, Any]) -> None:
             n = o.value.count("x")
             bad = ("completed-over-limit", f"limit {limit}: nest {levels} completed with {n} innermost executions although a prefix product exceeds the limit")
         elif o.err_class != "LoopIterationLimitError":
-            bad = (f"raised-{o.err_class}", f"limit {limit}: nest {levels} raised {o.err_class} instead of LoopIterationLimitError: {str(o.exc)[:80]}")
+            bad = (f"raised-{o.err_class}", f"limit {limit}: nest {levels} raised {o.err_class} instead of LoopIterationLimitError: {drv.safe_str(o.exc)[:80]}")
     else:
         if not o.ok:
-            bad = (f"raised-{o.err_class}-under-limit", f"limit {limit}: nest {levels} (all prefix products <= limit) raised {o.err_class}: {str(o.exc)[:80]}")
+            bad = (f"raised-{o.err_class}-under-limit", f"limit {limit}: nest {levels} (all prefix products <= limit) raised {o.err_class}: {drv.safe_str(o.exc)[:80]}")
         elif o.value.count("x") != total:
             bad = ("wrong-marker-count", f"nest {levels} produced {o.value.count('x')} markers, expected {total}")
     if bad is not None and sibling and failing(levels, limit) is None:
